@@ -83,9 +83,13 @@ type c01cfg struct {
 	scripts []pscript
 	clients int
 	shortT  bool // deploy timeout 1.3s, drain timeout 4.7s (instead of 5.3s / 2.1s): the two must not be confused
+	longT   bool // deploy timeout 61.3s (longer than a minute)
 }
 
 func (c c01cfg) timeouts() (time.Duration, time.Duration) {
+	if c.longT {
+		return 61300 * time.Millisecond, vD
+	}
 	if c.shortT {
 		return 1300 * time.Millisecond, 4700 * time.Millisecond
 	}
@@ -101,6 +105,9 @@ func (c c01cfg) String() string {
 	if c.shortT {
 		r += " T=1.3s D=4.7s"
 	}
+	if c.longT {
+		r += " T=61.3s"
+	}
 	return r
 }
 
@@ -115,10 +122,10 @@ func c01Configs(tier string) []c01cfg {
 	for _, x := range cps {
 		// n = 1: every script
 		for _, s := range scripts {
-			cfgs = append(cfgs, c01cfg{x.cmd, x.pre, []pscript{s}, 1, false})
+			cfgs = append(cfgs, c01cfg{x.cmd, x.pre, []pscript{s}, 1, false, false})
 			// deploy timeout shorter than the drain timeout: scripts turning healthy between the two
 			if s.firstOK >= 0 && s.firstOK <= 2*vI {
-				cfgs = append(cfgs, c01cfg{x.cmd, x.pre, []pscript{s}, 1, true})
+				cfgs = append(cfgs, c01cfg{x.cmd, x.pre, []pscript{s}, 1, true, false})
 			}
 		}
 		// n = 2: full product in thorough; in quick "ok" x every script and the
@@ -136,13 +143,13 @@ func c01Configs(tier string) []c01cfg {
 				if tier == "quick" && x.pre == "rollout" && !(i == 0 || j == 0) {
 					continue
 				}
-				cfgs = append(cfgs, c01cfg{x.cmd, x.pre, []pscript{a, b}, 1, false})
+				cfgs = append(cfgs, c01cfg{x.cmd, x.pre, []pscript{a, b}, 1, false, false})
 			}
 		}
 		// n = 3: exactly one bad target in each position, and all ok
 		if tier != "quick" || x.pre == "active" {
 			ok := scripts[0]
-			cfgs = append(cfgs, c01cfg{x.cmd, x.pre, []pscript{ok, ok, ok}, 1, false})
+			cfgs = append(cfgs, c01cfg{x.cmd, x.pre, []pscript{ok, ok, ok}, 1, false, false})
 			for _, s := range scripts[1:] {
 				if tier == "quick" && !(strings.HasPrefix(s.name, "never-500") || s.name == "1x500-then-ok" || s.name == "ok-at-T+0.1") {
 					continue
@@ -150,10 +157,23 @@ func c01Configs(tier string) []c01cfg {
 				for pos := 0; pos < 3; pos++ {
 					sc := []pscript{ok, ok, ok}
 					sc[pos] = s
-					cfgs = append(cfgs, c01cfg{x.cmd, x.pre, sc, 1, false})
+					cfgs = append(cfgs, c01cfg{x.cmd, x.pre, sc, 1, false, false})
 				}
 			}
 		}
+	}
+	// a deploy timeout longer than a minute: never healthy, healthy just before and just after it
+	lateAt := func(name string, nFail int, d time.Duration) pscript {
+		var st []memnet.ProbeStep
+		for i := 0; i < nFail; i++ {
+			st = append(st, p500())
+		}
+		st = append(st, pOKAfter(d))
+		return pscript{name, st, time.Duration(nFail)*vI + d}
+	}
+	for _, s := range []pscript{scripts[0], {"never-500", []memnet.ProbeStep{p500()}, -1}, lateAt("ok-at-61.1", 61, 100*time.Millisecond), lateAt("ok-at-61.4", 61, 400*time.Millisecond)} {
+		cfgs = append(cfgs, c01cfg{cmd: "deploy", pre: "active", scripts: []pscript{s}, clients: 1, longT: true})
+		cfgs = append(cfgs, c01cfg{cmd: "rollout", pre: "rollout", scripts: []pscript{s}, clients: 1, longT: true})
 	}
 	if tier != "quick" {
 		n := len(cfgs)
@@ -168,6 +188,9 @@ func c01Configs(tier string) []c01cfg {
 
 func c01Scenario(c c01cfg) *Scenario {
 	sc := &Scenario{Name: "C01 " + c.String(), Horizon: 120 * time.Second}
+	if c.longT {
+		sc.Horizon = 200 * time.Second
+	}
 	const host = "a.example.com"
 	var newNames []string
 	for i := range c.scripts {
